@@ -394,8 +394,8 @@ impl Property for C18 {
                 iters += 5;
             }
         }
-        let guest = GuestSpec { blocks, handlers: vec![], code_dram: rng.chance(1, 4), stack_dram: false, data_dram: false, vec_top: 0, sub_delay: 1, init_ccr: None, stack_off: 0 };
-        let cfg = SysCfg { wait_start, clock: gen_clock_model(rng), clock_seed: rng.next_u64(), step_cap: span * 3 + iters + 500, print_msgs: rng.chance(1, 8) };
+        let guest = GuestSpec { blocks, handlers: vec![], code_dram: rng.chance(1, 4), stack_dram: false, data_dram: false, vec_top: 0, sub_delay: 1, init_ccr: None, stack_off: 0, exit_style: 0 };
+        let cfg = SysCfg { wait_start, clock: gen_clock_model(rng), clock_seed: rng.next_u64(), step_cap: span * 3 + iters + 500, print_msgs: rng.chance(1, 8), print_opcode: false };
         Scn { guest, script, batches, cfg }
     }
 
